@@ -34,9 +34,11 @@ def run(project, rep):
     rep.run(T.t_r6b_no_context_arithmetic, project, rep)
     rep.rule("V-R11", "values at a declared limit reach the model: the readers' guards refuse only what is beyond the limit (T-R4)")
     rep.run(T.t_r4, project, rep)
+    rep.run(T.t_r4b_guards_constant, project, rep)
     from .. import rules_parser as P
     rep.rule("V-R9", "character data reaches the converters as it is in the document (only surrounding whitespace trimmed): tokenizer rules X-R*")
     rep.run(P.x_rules, project, rep)
+    rep.run(P.p_r9_convert_built_on_every_call, project, rep)
     rep.rule("V-R3", "absent children are None: Aggregate.__init__ sets every non-list spec attribute from the keyword of the same name, None when absent, through the descriptor (F-R2)")
     rep.run(F.f_r2_init, schema, rep)
     rep.run(Z.z_r4_conversion, project, rep, utc_label=True)
